@@ -46,6 +46,11 @@ func (self AnalyzedProgram) String() string {
 		singletons += "\n\n"
 	}
 
+	implBlocks := ""
+	for _, impl := range self.ImplBlocks {
+		implBlocks += impl.String() + "\n\n"
+	}
+
 	globals := ""
 	for _, glob := range self.Globals {
 		globals += glob.String()
@@ -59,7 +64,7 @@ func (self AnalyzedProgram) String() string {
 		functions = append(functions, fn.String())
 	}
 
-	return fmt.Sprintf("%s%s%s%s%s", imports, types, singletons, globals, strings.Join(functions, "\n\n"))
+	return fmt.Sprintf("%s%s%s%s%s%s", imports, types, singletons, implBlocks, globals, strings.Join(functions, "\n\n"))
 }
 
 //
